@@ -945,6 +945,18 @@ func genC12(g *G, sc *Scenario, tier string) {
 			sc.Ops = append(sc.Ops, Op{K: "compact", DS: g.Pick(c.Datasets), N: g.PickInt([]int{1, 1, 2, 3, 100000})})
 		}
 	}
+	if g.P(0.04) {
+		// a long change log behind the duplicates: a few hundred entities written once each, in this dataset and the next
+		for _, d := range c.Datasets {
+			var many []Ent
+			for k := 0; k < 260; k++ {
+				many = append(many, Ent{"id": fmt.Sprintf("%slong%s%03d", MkE, d, k), "props": map[string]any{c.PropKeys[0]: float64(k)}, "refs": map[string]any{}})
+			}
+			sc.Ops = append(sc.Ops, Op{K: "batch", DS: d, Ents: many})
+		}
+		sc.Ops = append(sc.Ops, Op{K: "dup", DS: c.Datasets[0], S: g.Pick(c.Pool)})
+		sc.Note = "long change log"
+	}
 	sc.Ops = append(sc.Ops, Op{K: "compact", DS: c.Datasets[0], N: g.PickInt([]int{1, 2, 3, 100000})})
 	if g.P(0.5) {
 		sc.Ops = append(sc.Ops, Op{K: "restart"})
